@@ -166,7 +166,10 @@ def lookup_schema_change(e, a, b, bundle):
       for x, y in zip(vals, other):
         if x != y:
           is_err = lambda v: isinstance(v, list) and len(v) >= 1 and v[0] == 'E'
-          if not is_err(y) or not (is_err(x) or x in (None, '', 0, ['L'])):
+          # either the fresh engine raises where the cell kept an older error / empty value, or the cell kept the
+          # error it got while the column was missing and the fresh engine computes a value
+          ok = (is_err(y) and (is_err(x) or x in (None, '', 0, ['L']))) or (is_err(x) and not is_err(y))
+          if not ok:
             return False
   return found
 
